@@ -21,6 +21,13 @@ func (k Keeper) CreateClient(
 	clientState exported.ClientState,
 	consensusState exported.ConsensusState,
 ) error {
+	if consensusState.ClientType() != clientState.ClientType() {
+		return sdkerrors.Wrapf(
+			types.ErrInvalidConsensus, "consensus state type %s does not match client type %s",
+			consensusState.ClientType(), clientState.ClientType(),
+		)
+	}
+
 	k.SetClientState(ctx, chainName, clientState)
 	// verifies initial consensus state against client state and initializes client store with any client-specific metadata
 	// e.g. set ProcessedTime in Tendermint clients
@@ -68,6 +75,13 @@ func (k Keeper) UpgradeClient(
 		return sdkerrors.Wrapf(types.ErrInvalidClientType, "cannot upgrade client %s, client-type not match", chainName)
 	}
 
+	if newConsensusState.ClientType() != newClientState.ClientType() {
+		return sdkerrors.Wrapf(
+			types.ErrInvalidConsensus, "consensus state type %s does not match client type %s",
+			newConsensusState.ClientType(), newClientState.ClientType(),
+		)
+	}
+
 	if err := newClientState.UpgradeState(ctx, k.cdc, k.ClientStore(ctx, chainName), newConsensusState); err != nil {
 		return sdkerrors.Wrapf(types.ErrUpgradeClient, "cannot upgrade client %s", chainName)
 	}
@@ -109,6 +123,13 @@ func (k Keeper) ToggleClient(
 
 	if clientState.ClientType() == newClientState.ClientType() {
 		return sdkerrors.Wrapf(types.ErrInvalidClientType, "cannot toggle client %s, client-type can't be the same", chainName)
+	}
+
+	if newConsensusState.ClientType() != newClientState.ClientType() {
+		return sdkerrors.Wrapf(
+			types.ErrInvalidConsensus, "consensus state type %s does not match client type %s",
+			newConsensusState.ClientType(), newClientState.ClientType(),
+		)
 	}
 
 	k.SetClientState(ctx, chainName, newClientState)
